@@ -6,6 +6,7 @@ import SymfcModel.Gen.Eig
 import SymfcModel.Lemmas.LinAlg
 import SymfcModel.Lemmas.EigBook
 import SymfcModel.Lemmas.Pipeline
+import Mathlib.Analysis.Real.Sqrt
 namespace Symfc.C09
 open Symfc Matrix
 
@@ -65,5 +66,26 @@ theorem pipeline_basis_is_orthonormal {k₁ k₂ k₃ r : Type*} [Fintype k₁] 
     (h₃ : Pipeline.EigBasis (Pipeline.sumruleProj (A * W₂) T ν) W₃) :
     (A * W₂ * W₃)ᵀ * (A * W₂ * W₃) = 1 :=
   Pipeline.pipeline_orthonormal A P T ν W₂ W₃ hA h₂ h₃
+
+/-- C09, the weights the code actually uses: `1/√count` (for `c_pt`, count = number of elements of the component;
+    for `C_trans`, count = n_lp) satisfies the normalisation hypothesis `w² · count = 1` of L1 over the reals. -/
+theorem code_weights_satisfy_the_normalisation (c : ℕ) (hc : 0 < c) : (1 / Real.sqrt (c : ℝ)) ^ 2 * (c : ℝ) = 1 := by
+  have h : (0 : ℝ) < c := by exact_mod_cast hc
+  rw [div_pow, one_pow, Real.sq_sqrt h.le]
+  field_simp
+
+/-- … hence, over ℝ, the normalised indicator matrix of ANY labelling without empty classes, with the code's weights
+    `1/√(class size)`, has orthonormal columns (L1 instantiated: `c_pt` and `C_trans` as the code builds them). -/
+theorem indicator_matrix_with_the_code_weights_is_orthonormal {n k : Type*} [Fintype n] [Fintype k]
+    [DecidableEq n] [DecidableEq k] (label : n → Option k)
+    (hne : ∀ j, 0 < (Finset.univ.filter (fun i => label i = some j)).card) :
+    (Matrix.of (fun i j => if label i = some j
+        then (1 / Real.sqrt ((Finset.univ.filter (fun i' => label i' = some j)).card : ℝ)) else 0))ᵀ *
+      (Matrix.of (fun i j => if label i = some j
+        then (1 / Real.sqrt ((Finset.univ.filter (fun i' => label i' = some j)).card : ℝ)) else 0)) =
+      (1 : Matrix k k ℝ) :=
+  LinAlg.indicator_orthonormal label
+    (fun j => 1 / Real.sqrt ((Finset.univ.filter (fun i' => label i' = some j)).card : ℝ))
+    (fun j => code_weights_satisfy_the_normalisation _ (hne j))
 
 end Symfc.C09
